@@ -90,6 +90,10 @@ theorem src_offset_local_tz_info_timezone_rs_fn_unix_time_to_unix_leap_time : C1
 theorem src_offset_local_tz_info_timezone_rs_fn_validate : C16_src_offset_local_tz_info_timezone_rs_fn_validate =
     ["&", "self", "->", "Result", "<", "Error", ">", "v1", "self", "v2", "len(", "if", "v1", "==", "0", "return", "Err(", "Error", "TimeZone(", "\"…\"", "v3", "0", "while", "v3", "<", "self", "v4", "len(", "if", "self", "v4", "v3", "v5", ">=", "v1", "return", "Err(", "Error", "TimeZone(", "\"…\"", "if", "v3", "+", "1", "<", "self", "v4", "len(", "&&", "self", "v4", "v3", "v6", ">=", "self", "v4", "v3", "+", "1", "v6", "return", "Err(", "Error", "TimeZone(", "\"…\"", "v3", "+=", "1", "if!(", "self", "v7", "is_empty(", "||", "self", "v7", "0", "v6", ">=", "0", "&&", "self", "v7", "0", "v8", "saturating_abs(", "==", "1", "return", "Err(", "Error", "TimeZone(", "\"…\"", "v9", "SECONDS_PER_28_DAYS", "-", "1", "v10", "0", "while", "v10", "<", "self", "v7", "len(", "if", "v10", "+", "1", "<", "self", "v7", "len(", "v11", "&", "self", "v7", "v10", "v12", "&", "self", "v7", "v10", "+", "1", "v13", "v12", "v6", "saturating_sub(", "v11", "v6", "v14", "v12", "v8", "saturating_sub(", "v11", "v8", "saturating_abs(", "if!(", "v13", ">=", "v9", "&&", "v14", "==", "1", "return", "Err(", "Error", "TimeZone(", "\"…\"", "v10", "+=", "1", "let(", "v15", "v16", "match(", "&", "self", "v15", "self", "v4", "last(", "Some(", "v17", "Some(", "v18", "=>", "v17", "v18", "v19", "=>", "return", "Ok(", "v20", "&", "self", "v2", "v16", "v5", "v21", "match", "self", "unix_leap_time_to_unix_time(", "v16", "v6", "Ok(", "v21", "=>", "v21", "Err(", "Error", "OutOfRange(", "v22", "=>", "return", "Err(", "Error", "TimeZone(", "v22", "Err(", "v23", "=>", "return", "Err(", "v23", "v24", "match", "v15", "find_local_time_type(", "v21", "Ok(", "v24", "=>", "v24", "Err(", "Error", "OutOfRange(", "v22", "=>", "return", "Err(", "Error", "TimeZone(", "v22", "Err(", "v23", "=>", "return", "Err(", "v23", "v25", "v20", "v26", "==", "v24", "v26", "&&", "v20", "v27", "==", "v24", "v27", "&&", "match(", "&", "v20", "v28", "&", "v24", "v28", "Some(", "v29", "Some(", "v30", "=>", "v29", "equal(", "v30", "None", "None", "=>", "true", "v19", "=>", "false", "if", "!", "v25", "return", "Err(", "Error", "TimeZone(", "\"…\"", "Ok("] := by decide +kernel
 
+/-- src/offset/local/tz_info/timezone.rs:fn with_offset -/
+theorem src_offset_local_tz_info_timezone_rs_fn_with_offset : C16_src_offset_local_tz_info_timezone_rs_fn_with_offset =
+    ["v1", "i32", "->", "Result", "<", "Self", "Error", ">", "if", "v1", "<=", "-", "86400", "||", "v1", ">=", "86400", "return", "Err(", "Error", "LocalTimeType(", "\"…\"", "Ok(", "Self", "v1", "v2", "false", "v3", "None"] := by decide +kernel
+
 /-- callee src/datetime/mod.rs:fn from_naive_utc_and_offset -/
 theorem callee_src_datetime_mod_rs_fn_from_naive_utc_and_offset : C16_callee_src_datetime_mod_rs_fn_from_naive_utc_and_offset =
     ["v1", "NaiveDateTime", "v2", "Tz", "Offset", "->", "DateTime", "<", "Tz", ">", "DateTime", "v1", "v2"] := by decide +kernel
